@@ -329,6 +329,12 @@ impl Prop for C02 {
         out.set_exhaustive("s2l", true);
       }
       "l2s" => {
+        // lunar years outside 0..9999 have no constructible months: refused - and the refusal comes first, so that everything
+        // this worker converts afterwards also shows whether a refused request left something behind
+        for (yy, mm) in [(-1i64, 11i64), (-1, 12), (-2, 1), (10000, 1), (10001, 12)] {
+          out.class("lunar_dates_of_years_outside_the_range");
+          run_case(env, out, "l2s", &Case::ints(&[yy, mm, 1]), &ev);
+        }
         let (ylo, yhi) = shard_range(10000, shard, nshards);
         for y in ylo as i64..yhi as i64 {
           for k in 1..=12i64 {
